@@ -22,7 +22,7 @@ META = dict(
           "chaiscript_parser.hpp on every run and are exactly C's [operator_table_is_C, operator_function_shape, binary_levels_disjoint]; for EVERY well-formed expression tree "
           "(atoms, prefix, binary of any level, conditionals; any size and nesting) the model of Operator(0) rebuilds exactly the tree from its token string printed with the "
           "fewest parentheses C allows and stops before whatever follows [precedence_roundtrip, chai_precedence_roundtrip: induction over the tree with a descent lemma over the "
-          "levels]; chains of assignments (the twelve symbols of Equation(), regenerated [assignment_symbols_are_C]) nest to the right around such expressions [equation_roundtrip]; so two different trees never share a token string [tokens_determine_tree]; grouping spelled out on the table [grouping_on_chai_table]. BETWEEN BYTES AND TOKENS [Props/C03Sym over Model/Sym = Symbol()'s look-ahead rule; the function's text and the symbol alphabet are regenerated "
+          "levels]; chains of assignments (the twelve symbols of Equation(), regenerated [assignment_symbols_are_C]) nest to the right around such expressions [equation_roundtrip]; so two different trees never share a token string [tokens_determine_tree]; a run that ends, ends the same way with any larger fuel [precedence_result_independent_of_fuel, precedence_roundtrip_any_fuel]; grouping spelled out on the table [grouping_on_chai_table]. BETWEEN BYTES AND TOKENS [Props/C03Sym over Model/Sym = Symbol()'s look-ahead rule; the function's text and the symbol alphabet are regenerated "
           "and pinned: symbol_function_shape]: for every binary / ternary operator followed directly by every prefix operator, '(' or an identifier, Symbol() accepts the "
           "operator exactly when C's maximal munch reads two tokens [glued_operators_split_as_in_C, kernel evaluation of the whole table]; the ':' of ?: is the exception "
           "[colon_glued_to_sign_counterexample = known finding COLON_GLUED_TO_SIGN]; Equation() switches the look-ahead off [assignment_symbols_ignore_lookahead]. Tie: (C) printed trees "
